@@ -174,52 +174,6 @@ static bool step_ok(const OpC& o, status st, const ykc::GetResult& g, Model& m, 
     return err.empty();
 }
 
-// independent accounting for mem_usage
-static std::string check_mem_usage(tree_instance* ti, const std::string& storage) {
-    memory_usage_stack got = mem_usage(storage);
-    std::vector<std::tuple<std::size_t, std::size_t, std::size_t>> want;
-    std::function<void(base_node*, std::size_t)> rec = [&](base_node* n, std::size_t level) {
-        if (want.size() <= level) want.resize(level + 1, {0, 0, 0});
-        if (auto* in = dynamic_cast<interior_node*>(n)) {
-            std::get<0>(want[level])++;
-            std::get<2>(want[level]) += sizeof(interior_node);
-            std::size_t nk = in->n_keys_.load();
-            for (std::size_t i = 0; i <= nk; ++i) rec(in->children[i], level + 1);
-        } else {
-            auto* bn = dynamic_cast<border_node*>(n);
-            std::get<0>(want[level])++;
-            std::get<2>(want[level]) += sizeof(border_node);
-            std::uint64_t perm = bn->permutation_.body_.load();
-            std::size_t cnk = perm & 0xf;
-            for (std::size_t r = 0; r < cnk; ++r) {
-                std::size_t slot = (perm >> (4 * (r + 1))) & 0xf;
-                base_node* child = bn->lv_[slot].get_next_layer();
-                if (child != nullptr) {
-                    rec(child, level + 1);
-                } else {
-                    value* vp = bn->lv_[slot].get_value();
-                    if (vp != nullptr && value::is_value_ptr(vp)) {
-                        auto info = ykalloc::lookup(value::get_body(vp));
-                        if (info.found) std::get<2>(want[level]) += info.size;
-                    }
-                }
-            }
-        }
-    };
-    if (ti->root_ != nullptr) rec(ti->root_, 0);
-    std::ostringstream e;
-    if (got.size() != want.size()) {
-        e << "mem_usage has " << got.size() << " levels, tree has " << want.size();
-        return e.str();
-    }
-    for (std::size_t l = 0; l < got.size(); ++l) {
-        if (std::get<0>(got[l]) != std::get<0>(want[l])) e << "level " << l << ": node count " << std::get<0>(got[l]) << " want " << std::get<0>(want[l]) << "; ";
-        if (std::get<2>(got[l]) != std::get<2>(want[l])) e << "level " << l << ": reserved " << std::get<2>(got[l]) << " want " << std::get<2>(want[l]) << "; ";
-        if (std::get<1>(got[l]) > std::get<2>(got[l])) e << "level " << l << ": used " << std::get<1>(got[l]) << " > reserved " << std::get<2>(got[l]) << "; ";
-    }
-    return e.str();
-}
-
 static const char* kStorage = "s";
 
 static RunOut run_hist(const Hist& h, bool want_canon, bool full_oracles) {
@@ -258,6 +212,11 @@ static RunOut run_hist(const Hist& h, bool want_canon, bool full_oracles) {
         if (std::find(universe.begin(), universe.end(), o.key) == universe.end()) universe.push_back(o.key);
         status st{};
         ykc::GetResult g;
+        // C20: used bytes grow with every occupied slot (checked on the explored transition when no node is created or removed)
+        bool track_mu = (g_oracles & OR_MEM) != 0 && full_oracles && i + 1 == all.size() && (o.kind == O_PUT || o.kind == O_UPUT) &&
+                        ti->root_ != nullptr && m.count(o.key) == 0;
+        memory_usage_stack mu_before;
+        if (track_mu) mu_before = mem_usage(kStorage);
         switch (o.kind) {
             case O_GET:
                 g = ykc::t_get(ti, o.key);
@@ -267,6 +226,17 @@ static RunOut run_hist(const Hist& h, bool want_canon, bool full_oracles) {
             case O_UPUT: st = ykc::t_put(tk, ti, o.key, ykc::val_of(o.key, o.gen), true); break;
             case O_REMOVE: st = ykc::t_remove(tk, ti, o.key); break;
             default: break;
+        }
+        if (track_mu && st == status::OK) {
+            memory_usage_stack mu_after = mem_usage(kStorage);
+            bool same_shape = mu_after.size() == mu_before.size();
+            std::size_t ub = 0, ua = 0;
+            for (std::size_t l = 0; same_shape && l < mu_after.size(); ++l) {
+                if (std::get<0>(mu_after[l]) != std::get<0>(mu_before[l])) same_shape = false;
+                ub += std::get<1>(mu_before[l]);
+                ua += std::get<1>(mu_after[l]);
+            }
+            if (same_shape && ua <= ub) fail("mem_usage:used_not_growing", "a key was added without creating a node but used bytes went " + std::to_string(ub) + " -> " + std::to_string(ua));
         }
         std::string err;
         if ((g_oracles & OR_MODEL) != 0 && !step_ok(o, st, g, m, err)) {
@@ -294,7 +264,7 @@ static RunOut run_hist(const Hist& h, bool want_canon, bool full_oracles) {
         if (!e.empty()) fail("api:disagreement", e);
     }
     if ((g_oracles & OR_MEM) != 0 && full_oracles && ti->root_ != nullptr) {
-        std::string e = check_mem_usage(ti, kStorage);
+        std::string e = ykc::check_mem_usage(ti, kStorage);
         if (!e.empty()) fail("mem_usage:mismatch", e);
     }
     leave(tk);
